@@ -1,12 +1,20 @@
 #!/bin/bash
-# seed_matrix.sh [tier]: runs every seeded change against the check of its own property (scratch copy, /repo untouched)
-# and writes seeded/RESULTS.md
-TIER="${1:-quick}"; OUT=/verif/seeded/RESULTS.md
-echo "| seed | property | tier | detected | first rule reported |" > $OUT.tmp; echo "|---|---|---|---|---|" >> $OUT.tmp
-for d in /verif/seeded/*/; do n=$(basename $d); [ -f $d/patch.diff ] || continue; id=${n%%-*}
-  R=$(/verif/tools/try_seed.sh $d/patch.diff $TIER $id 2>&1); rc=$(echo "$R" | grep -oE "exit=[0-9]+" | tail -1)
-  rule=$(echo "$R" | grep -E "^  rule=" | head -1 | sed 's/^  rule=//' | cut -d' ' -f1)
-  det=no; [ "$rc" = "exit=1" ] && det=yes
-  echo "| $n | $id | $TIER | $det | $rule |" >> $OUT.tmp; echo "$n $rc $rule"
+# seed_matrix.sh [tier] [seed-name...]: runs every seeded change (or the named ones) against the check of its own
+# property - plus the checks listed under "also_checks" in its meta.json - on a scratch copy (/repo untouched) and
+# writes seeded/RESULTS.md
+TIER="${1:-quick}"; shift; OUT=/verif/seeded/RESULTS.md
+NAMES="$@"; [ -z "$NAMES" ] && NAMES=$(ls -d /verif/seeded/C*-*/ | xargs -n1 basename)
+TMP=$(mktemp)
+for n in $NAMES; do d=/verif/seeded/$n; [ -f $d/patch.diff ] || continue; id=${n%%-*}
+  CHECKS="$id $(python3 -c "import json;print(' '.join(json.load(open('$d/meta.json')).get('also_checks',[])))")"
+  for ck in $CHECKS; do
+    R=$(/verif/tools/try_seed.sh $d/patch.diff $TIER $ck 2>&1); rc=$(echo "$R" | grep -oE "exit=[0-9]+" | tail -1)
+    rule=$(echo "$R" | grep -E "^  rule=" | head -1 | sed 's/^  rule=//' | cut -d' ' -f1)
+    det=no; [ "$rc" = "exit=1" ] && det=yes
+    echo "| $n | $id | $ck | $TIER | $det | $rule |" >> $TMP; echo "$n check=$ck $rc $rule"
+  done
 done
-mv $OUT.tmp $OUT
+# merge with earlier results for seeds not rerun
+{ echo "| seed | property | check run | tier | detected | first rule reported |"; echo "|---|---|---|---|---|---|";
+  { [ -f $OUT ] && grep -E "^\| C[0-9]+-[0-9]+ " $OUT | while IFS= read -r l; do k=$(echo "$l" | awk -F'|' '{gsub(/ /,"",$2);gsub(/ /,"",$4);print $2"|"$4}'); grep -qE "^\| ${k%%|*} \| [^|]* \| ${k##*|} " $TMP || echo "$l"; done; cat $TMP; } | sort -u; } > $OUT.new
+mv $OUT.new $OUT; rm -f $TMP
